@@ -171,6 +171,12 @@ func RunLockstep(addr string, w *model.World, reqs []wire.Req, watchdog time.Dur
 		}
 	}
 	res.Log = c.Log
+	if res.Fail == nil && len(o.Uploads) > 0 {
+		c.Close()
+		if f := o.VerifyUploads(5 * time.Second); f != nil {
+			res.Fail, res.FailAt = f, len(reqs)
+		}
+	}
 	return res
 }
 
@@ -240,3 +246,5 @@ func CrashCheck(e *Env, p *host.Proc, what string, witness any) bool {
 	}
 	return true
 }
+
+func timeUnix(s int64) time.Time { return time.Unix(s, 0) }
